@@ -467,6 +467,10 @@ def network(profile="exact", max_ops=6, dtypes=("int8", "int8", "int8", "uint8",
         if profile == "exact16":  # exact-class operators whose 16-bit reference is pinned down (no ADD/SUB: their int16 reference depends on the pot_scale option)
             menu = ["conv", "conv", "conv", "dw", "fc", "maxpool", "avgpool_valid", "mul", "relu", "relu6", "reshape", "concat", "pad", "quantize", "sslice", "split",
                     "maximum", "minimum", "mul_const", "padconv"]
+        if profile == "residual":  # shape-preserving NPU and CPU operators over a pool of same-shaped tensors that are re-used again and again (several
+            # Ethos-U operators exchanging tensors with CPU operators, tensors with consumers on both sides and late re-use)
+            menu = ["add", "add", "mul", "sub", "custom", "custom", "rich_cpu", "relu", "add_const", "maximum", "dw_same"]
+            n_ops = draw(st.integers(3, max(max_ops, 3)))
         if profile == "convs":  # one or two convolution-type operators: kernel sizes, strides, per-axis dilations (also >2), paddings, depth multipliers
             menu = ["conv", "conv", "conv", "dw", "padconv", "fc"]
             n_ops = draw(st.integers(1, 2))
@@ -498,6 +502,8 @@ def network(profile="exact", max_ops=6, dtypes=("int8", "int8", "int8", "uint8",
                 cur = nb.conv(cur)
             elif kind == "dw":
                 cur = nb.conv(cur, "dw")
+            elif kind == "dw_same":
+                cur = nb.conv(cur, "dw", force_pad="SAME", force_stride=(1, 1))
             elif kind == "padconv":
                 p = nb.pad(cur, hw_only=True)
                 cur = nb.conv(p, draw(st.sampled_from(["conv", "dw"])), force_pad="VALID")
@@ -516,7 +522,7 @@ def network(profile="exact", max_ops=6, dtypes=("int8", "int8", "int8", "uint8",
                 same = [t for t in history[:-1] if nb.info(t)["shape"] == X["shape"] and nb.info(t)["dtype"] == X["dtype"]]
                 if kind in ("maximum", "minimum"):  # the reference kernels demand identical quantisation
                     same = [t for t in same if (nb.info(t)["scale"], nb.info(t)["zp"]) == (X["scale"], X["zp"])]
-                if same and draw(st.booleans()):
+                if same and (draw(st.booleans()) or (profile == "residual" and draw(st.integers(0, 3)) != 0)):
                     other = draw(st.sampled_from(same))  # residual connection
                 cur = nb.binary(cur, kind.upper(), other)
             elif kind in ("add_const", "mul_const", "sub_const"):
